@@ -97,44 +97,57 @@ def setFixedInputSize (g : Gen) (size : Nat) : Except GenErr Gen :=
 /-- `u64::saturating_add` -/
 def satAdd (a b : Nat) : Nat := min (a + b) U64_MAX
 
+/-- `bh_context[k]` (out of range reads give a fresh context; range is checked separately) -/
+def ctxAt (g : Gen) (k : Nat) : Ctx := g.ctx.getD k Ctx.new
+
+/-- rs: first half of the `bh_loop_2!` body: `if bh_curr!().blockhash_index == 0 { … }` —
+    activation of the last hash or fork of the next block hash context -/
+def forkStep (g : Gen) (i : Nat) : Gen :=
+  let cur := g.ctxAt i
+  if cur.idx = 0 then
+    if g.bhEnd > g.bhEndLimit then
+      if g.bhEndLimit = 30 && !g.isLast then { g with hLast := cur.hFull, isLast := true } else g
+    else
+      if i + 1 < 31 then
+        let nxt := (g.ctxAt (i + 1)).reset
+        let nxt := { nxt with hFull := cur.hFull, hHalf := cur.hHalf }
+        { g with ctx := g.ctx.setIfInBounds (i + 1) nxt, bhEnd := g.bhEnd + 1 }
+      else { g with panicked := true }
+  else g
+
+/-- rs: storing a piece into `bh_curr_reused!()`:
+    `blockhash[idx] = h_full.value(); blockhash_ch_half = h_half.value();` and the index / hash resets -/
+def _root_.Ffuzzy.Ctx.storePiece (c : Ctx) : Ctx :=
+  let c := { c with bh := c.bh.setIfInBounds c.idx c.hFull, chHalf := c.hHalf }
+  if c.idx < 63 then
+    let c := { c with idx := c.idx + 1, hFull := fnvInit }
+    if c.idx < 32 then { c with chHalf := NIL, hHalf := fnvInit } else c
+  else c
+
+/-- rs: the `else if bhidx_end - bhidx_start >= 2 && elim_border < … && bh_next!().blockhash_index >= HALF_SIZE`
+    branch (block hash elimination); `wasFull` = the context was already at index 63.
+    `bh_next!()` is only evaluated when the first two conjuncts hold. -/
+def elimStep (g : Gen) (i : Nat) (wasFull : Bool) : Gen :=
+  if wasFull && g.bhEnd - g.bhStart ≥ 2 && g.elimBorder < g.fixedSize.getD g.inputSize then
+    if i + 1 < 31 then
+      if (g.ctxAt (i + 1)).idx ≥ 32 then
+        { g with bhStart := g.bhStart + 1,
+                 rollMask := (g.rollMask * 2 + 1) % 4294967296,
+                 elimBorder := (g.elimBorder * 2) % 18446744073709551616 }
+      else g
+    else { g with panicked := true }
+  else g
+
 /-- rs: the body of `bh_loop_2!` for loop index `i`, then the loop control
     (`if (h & 1) != 0 { break }`, `h >>= 1`, `i += 1`, `if i >= bhidx_end { break }`). -/
 def bhLoop2 (g : Gen) (i : Nat) (h : Nat) : Gen :=
   if hi : i < 31 then
-    -- `if bh_curr!().blockhash_index == 0 { … }`
-    let cur := g.ctx.getD (i) Ctx.new
-    let g : Gen :=
-      if cur.idx = 0 then
-        if g.bhEnd > g.bhEndLimit then
-          if g.bhEndLimit = 30 && !g.isLast then { g with hLast := cur.hFull, isLast := true } else g
-        else
-          if i + 1 < 31 then
-            let nxt := (g.ctx.getD (i+1) Ctx.new).reset
-            let nxt := { nxt with hFull := cur.hFull, hHalf := cur.hHalf }
-            { g with ctx := g.ctx.setIfInBounds (i+1) nxt, bhEnd := g.bhEnd + 1 }
-          else { g with panicked := true }
-      else g
+    let g := g.forkStep i
     if g.panicked then g else
-    -- store the piece
-    let cur := g.ctx.getD (i) Ctx.new
+    let cur := g.ctxAt i
     if cur.idx ≥ 64 then { g with panicked := true } else
-    let cur := { cur with bh := cur.bh.setIfInBounds cur.idx cur.hFull, chHalf := cur.hHalf }
-    let (cur, g) : Ctx × Gen :=
-      if cur.idx < 63 then
-        let cur := { cur with idx := cur.idx + 1, hFull := fnvInit }
-        let cur := if cur.idx < 32 then { cur with chHalf := NIL, hHalf := fnvInit } else cur
-        (cur, g)
-      else if g.bhEnd - g.bhStart ≥ 2 && g.elimBorder < g.fixedSize.getD g.inputSize then
-        -- `bh_next!()` is only evaluated when the first two conjuncts hold
-        if i + 1 < 31 then
-          if (g.ctx.getD (i+1) Ctx.new).idx ≥ 32 then
-            (cur, { g with bhStart := g.bhStart + 1,
-                           rollMask := (g.rollMask * 2 + 1) % 4294967296,
-                           elimBorder := (g.elimBorder * 2) % 18446744073709551616 })
-          else (cur, g)
-        else (cur, { g with panicked := true })
-      else (cur, g)
-    let g := { g with ctx := g.ctx.setIfInBounds i cur }
+    let g := { g with ctx := g.ctx.setIfInBounds i cur.storePiece }
+    let g := g.elimStep i (decide (cur.idx ≥ 63))
     if g.panicked then g
     else if h % 2 = 1 then g
     else if i + 1 ≥ g.bhEnd then g
@@ -183,7 +196,7 @@ def guessLoop (g : Gen) (k : Nat) : Nat :=
   match k with
   | 0 => 0
   | k' + 1 =>
-    if k' + 1 > g.bhStart && (g.ctx.getD (k' + 1) Ctx.new).idx < 32 then guessLoop g k' else k' + 1
+    if k' + 1 > g.bhStart && (g.ctxAt (k' + 1)).idx < 32 then guessLoop g k' else k' + 1
 
 /-- rs: `guess_output_log_block_size` -/
 def guessOutputLogBlockSize (g : Gen) : Nat :=
@@ -199,7 +212,7 @@ def finalizeRaw (g : Gen) (truncate : Bool) (s2 : Nat) : Except GenErr Digest :=
     let isLong := s2 == 64
     let k := g.guessOutputLogBlockSize
     let rollValue := g.roll.value
-    let bh0 := g.ctx.getD (k) Ctx.new
+    let bh0 := g.ctxAt k
     -- block hash 1
     let sz := if bh0.bh.getD 63 NIL != NIL then bh0.idx + 1 else bh0.idx
     let d1 := (bh0.bh.toList.take sz)
@@ -209,7 +222,7 @@ def finalizeRaw (g : Gen) (truncate : Bool) (s2 : Nat) : Except GenErr Digest :=
       else d1
     -- block hash 2
     if k < g.bhEnd - 1 then
-      let b1 := g.ctx.getD (k+1) Ctx.new
+      let b1 := g.ctxAt (k + 1)
       if truncate then
         if b1.chHalf != NIL then
           let last := if rollValue != 0 then b1.hHalf else b1.chHalf
